@@ -7,10 +7,11 @@ import RbModel.Lemmas.GsubMultiStep
 namespace RbModel.Gsub
 open RbModel RbModel.Buf RbModel.Mem RbModel.Spec.Subst
 
-/-- the hypothesis of the scheme: on every context with the given lookup mask and `random = false`, applying the subtables
-    at the current glyph is "replace it by the sequence `sub cur`, or decline" -/
-def ActsAsL (l : Lookup) (lm : Nat) (sub : Info → Option (List Nat)) : Prop :=
-  ∀ (c : Ctx) (cur : Info), c.lookupMask = lm → c.random = false → c.buf.info[c.buf.idx]? = some cur →
+/-- the hypothesis of the scheme: on every context with the given lookup mask (and, when `nr` is set, `random = false`:
+    needed by alternate substitution only), applying the subtables at the current glyph is "replace it by the sequence
+    `sub cur`, or decline" -/
+def ActsAsL (l : Lookup) (lm : Nat) (nr : Bool) (sub : Info → Option (List Nat)) : Prop :=
+  ∀ (c : Ctx) (cur : Info), c.lookupMask = lm → (nr = true → c.random = false) → c.buf.info[c.buf.idx]? = some cur →
     applySubtables (recurseAt MAX_NESTING_LEVEL) true c l.subtables =
       match sub cur with
       | some ss => (applySeq c cur ss).map (fun c' => (c', true))
@@ -24,9 +25,9 @@ def stepL (f : Font) (lm props : Nat) (sub : Info → Option (List Nat)) (x : In
     | none => [projG x]
   else [projG x]
 
-theorem applyForward_list (l : Lookup) (lm : Nat) (sub : Info → Option (List Nat)) (hact : ActsAsL l lm sub)
+theorem applyForward_list (l : Lookup) (lm : Nat) (nr : Bool) (sub : Info → Option (List Nat)) (hact : ActsAsL l lm nr sub)
     (hne : ∀ x ss, sub x = some ss → ss ≠ []) (hg : Gen.Buf.ensureGrowOnly = true) :
-    ∀ (fuel : Nat) (c : Ctx), c.lookupMask = lm → c.random = false → Inv c.buf → c.buf.successful = true →
+    ∀ (fuel : Nat) (c : Ctx), c.lookupMask = lm → (nr = true → c.random = false) → Inv c.buf → c.buf.successful = true →
       c.lookupProps = l.props → (inP c.buf).length ≤ fuel →
       c.buf.outLen + ((inP c.buf).flatMap (stepL c.font lm l.props sub)).length ≤ c.buf.maxLen →
       ∃ b', applyForward l fuel c = .ok { c with buf := b' } ∧ Inv b' ∧ inP b' = [] ∧ b'.successful = true ∧
@@ -165,8 +166,8 @@ theorem sync_parts (b : Buf) (hinv : Inv b) (hg : Gen.Buf.ensureGrowOnly = true)
 
 /-- `apply_string` of a replace-by-list lookup: the glyph string is expanded glyph by glyph. -/
 theorem applyString_list (l : Lookup) (sub : Info → Option (List Nat)) (hrev : l.reverse = false) (c : Ctx)
-    (hact : ActsAsL l c.lookupMask sub) (hne : ∀ x ss, sub x = some ss → ss ≠ []) (hg : Gen.Buf.ensureGrowOnly = true)
-    (hrnd : c.random = false) (fuel : Nat)
+    (nr : Bool) (hact : ActsAsL l c.lookupMask nr sub) (hne : ∀ x ss, sub x = some ss → ss ≠ []) (hg : Gen.Buf.ensureGrowOnly = true)
+    (hrnd : nr = true → c.random = false) (fuel : Nat)
     (hsu : c.buf.successful = true) (hlen : c.buf.len ≤ c.buf.info.length) (hout : c.buf.out.length = c.buf.info.length)
     (hf : c.buf.len ≤ fuel)
     (hb : ((c.buf.info.take c.buf.len).flatMap (stepL c.font c.lookupMask l.props sub)).length ≤ c.buf.maxLen) :
@@ -192,7 +193,7 @@ theorem applyString_list (l : Lookup) (sub : Info → Option (List Nat)) (hrev :
       simp [inP, clearOutput]
     have hout0 : outP ({ c.buf.clearOutput with idx := 0 } : Buf) = [] := by
       simp [outP, clearOutput]
-    obtain ⟨b', hres, hinv', hi', hsu', hml', hout'⟩ := applyForward_list l c.lookupMask sub hact hne hg fuel
+    obtain ⟨b', hres, hinv', hi', hsu', hml', hout'⟩ := applyForward_list l c.lookupMask nr sub hact hne hg fuel
       { c with lookupProps := l.props, buf := { c.buf.clearOutput with idx := 0 } }
       rfl hrnd hinv0 (by simpa [clearOutput] using hsu) rfl
       (by show (inP ({ c.buf.clearOutput with idx := 0 } : Buf)).length ≤ fuel
